@@ -10,14 +10,6 @@ use vstd::prelude::*;
 pub type Result<T> = core::result::Result<T, Error>;
 
 
-/// the `encoding="…"` label of an XML declaration, mapped by encoding_rs (assumed, uninterpreted)
-pub uninterp spec fn spec_encoder(decl: Seq<u8>) -> Option<&'static Encoding>;
-impl<'a> BytesDecl<'a> {
-    #[verifier::external_body]
-    pub fn encoder(&self) -> (r: Option<&'static Encoding>)
-        ensures r == spec_encoder(self.content.buf@)
-    { unimplemented!() }
-}
 
 impl ReaderState {
 //@extract state::ReaderState::emit_question_mark#enc | src/reader/state.rs :: impl ReaderState :: fn emit_question_mark | serves=C17 features=encoding
@@ -73,11 +65,6 @@ impl ReaderState {
 }
 
 // ---- construction from a &str locks the encoding ----
-/// encoding_rs::UTF_8 (model)
-pub exec const UTF_8: &'static Encoding
-    ensures UTF_8.id == 0
-{ &Encoding { id: 0 } }
-
 //@extract reader::Reader#enc | src/reader/mod.rs :: struct Reader | serves=C17 features=encoding
  pub struct Reader<R> {
     /// Source of data for parse
